@@ -80,8 +80,8 @@ where
                 Some(format!("to_span(slice): model tokens {}..{} vs real {}..{}", off, q, l2, h2))
             }
         }
-        (Val::FoldW { lo, hi, acc, x }, Val::FoldW { lo: l2, hi: h2, acc: a2, x: x2 }) => {
-            if !span_ok::<I>(buf, (*lo, *hi), (*l2, *h2)) {
+        (Val::FoldW { lo, lo2, hi, acc, x }, Val::FoldW { lo: l2, hi: h2, acc: a2, x: x2, .. }) => {
+            if !span_ok::<I>(buf, (*lo, *hi), (*l2, *h2)) && !span_ok::<I>(buf, (*lo2, *hi), (*l2, *h2)) {
                 return Some(format!("fold callback span: model tokens {}..{} vs real {}..{}", lo, hi, l2, h2));
             }
             val_diff::<I>(buf, acc, a2).or_else(|| val_diff::<I>(buf, x, x2))
